@@ -2265,9 +2265,39 @@ pub fn c13_plan(tier: Tier) -> Plan {
             name: "L.multi.long-history",
             size: n,
             exhaustive: false,
-            gen: Box::new(move |_idx, seed| {
+            gen: Box::new(move |idx, seed| {
                 let mut rng = Rng::new(seed);
-                Case::L(long_history_case(&cfg, &mut rng, 0, false))
+                let mut c = long_history_case(&cfg, &mut rng, 0, false);
+                if idx % 2 == 1 {
+                    // churn beside connections that stay: two idle connections are open from the start,
+                    // every short connection ends right when the next one arrives, and in the end a group
+                    // of connections arrives together and stays
+                    let n0 = c.conns.len();
+                    let idle = rng.range(1, 3) as usize;
+                    let mut pre = Vec::new();
+                    for k in 0..idle {
+                        c.conns.push(LConn::healthy(&[]));
+                        pre.push(Step::Connect(n0 + k));
+                    }
+                    pre.push(Step::Quiesce);
+                    // no quiescence waits inside the churn: closes race with the next accept
+                    let churn: Vec<Step> = c.steps.iter().filter(|s| !matches!(s, Step::Quiesce)).cloned().collect();
+                    pre.extend(churn);
+                    let late = rng.range(3, 6) as usize;
+                    let base = c.conns.len();
+                    for k in 0..late {
+                        let i = base + k;
+                        c.conns.push(LConn::healthy(&token_stream(&cfg, &[crate::alphabet::Kind(crate::alphabet::Base::Echo, crate::alphabet::Flags::NONE)], i)));
+                        pre.push(Step::Connect(i));
+                    }
+                    for k in 0..late {
+                        pre.push(Step::Send(base + k, 10_000));
+                    }
+                    c.steps = pre;
+                    c.initial = 1;
+                    c.max = 100;
+                }
+                Case::L(c)
             }),
         });
     }
